@@ -341,6 +341,9 @@ func errFromMarshalOnly(v ssa.Value, depth int) bool {
 		}
 	case *ssa.Call:
 		ci := describeCall(&x.Call)
+		if wrapped := wrapHelperOperand(&x.Call); wrapped != nil { // wrapError("…", err): the helper's %w operand
+			return errFromMarshalOnly(wrapped, depth-1)
+		}
 		if ci.Pkg == "fmt" && ci.Name == "Errorf" {
 			for _, op := range variadicElems(x.Call.Args[len(x.Call.Args)-1]) {
 				for {
